@@ -178,12 +178,14 @@ CLAIMED = {
          "generic bodies, K and V abstract) are each proved equal to one unfolding of it, for chains of any depth, with Set/Del/Wrap/Unwrap framed to "
          "the one key / the parent link; roleBase.ConsolidatedVarStack = user vars over vars over defaults, each flattened; VarStack.consolidated = the "
          "stage visibility table (own defaults from STAGE2, own vars from STAGE3, own user vars from STAGE4, locals always on top); setParent of every "
-         "role kind links the three hierarchies kind by kind to the parent's getters; the environment's adapter hands out GlobalDefaults/GlobalVars/"
+         "role kind links the three hierarchies kind by kind to the parent's getters, and an include role keeps its own level between the included "
+         "subworkflow and its ancestors; the environment's adapter hands out GlobalDefaults/GlobalVars/"
          "UserVars as outermost ancestors; Task.BuildTaskCommand/BuildPropertyMap keep the workflow stack as the winning level over class vars over "
          "class defaults (a genuine defect found here - class defaults beating class vars in the task command - repaired by a fix: commit).",
          "mergo.Merge(&dst, src, WithOverride) on two maps is assumed to be map union with src winning (site assumption, listed); a frame axiom for "
          "the heap-dependent ghost functions (entry-allocated arguments, heaps agreeing on entry-allocated objects) is a meta-theorem of the memory "
-         "model, assumed; the distinctness of a role's three maps is a precondition of setParent; the composition of the links through function "
+         "model, assumed; the setParent links are stated for roles whose three maps are distinct objects; an included subworkflow's attachment to the include "
+         "role is a rely on the loader function value, matched by the loader closure's own contract; the composition of the links through function "
          "values (ParentAdapter getters) and the template substitution that consumes the stacks are outside the contracts.",
          "DESIGN.md §6 C14"),
  "C17": ("NARROW. Proof obligations on the sequential code the property rests on: ensureBasicTaskKilled never dereferences a nil ProcessState/Process "
@@ -193,7 +195,8 @@ CLAIMED = {
          "FINISHED; ControllableTask.Kill: the walk towards DONE terminates (decreases rank(reachedState), using the transitioner contract of C16 "
          "through the commit goroutine's guarantee), exactly one final state is left for the reaper - FINISHED iff DONE was reached, KILLED "
          "otherwise, never FAILED -, the control channel is used only when it exists (a second genuine defect, repaired), and the process is "
-         "signalled via doTermIntKill unless already gone; doTermIntKill is loop-free (bounded by its three constant waits), sends TERM then INT "
+         "signalled via doTermIntKill unless already gone; every child is started with Setpgid (so that the negative pid reaches a group); a "
+         "TriggerHook is served only on the hook task it was addressed to; doTermIntKill is loop-free (bounded by its three constant waits), sends TERM then INT "
          "to that pid and returns only after the process was seen gone or SIGKILL was sent.",
          "'At most one terminal status' across the reaper and a concurrent kill, process groups actually dying, hangs on the one-slot "
          "pendingFinalTaskStateCh under repeated kills, and every race between Kill, the Launch goroutine and the reaper are schedule / OS questions "
@@ -215,8 +218,8 @@ CLAIMED = {
          "NOT APPLICABLE PART: 'the same workflow template with the same variables always yields the same role tree' as far as it depends on "
          "YAML decoding (reflection) and on the template/expression engine (third-party VM): determinism of those, and the values they "
          "substitute, are outside any contract here. In the concurrent branches 'an error in any child fails the load' is decided per goroutine "
-         "(a failing child files its error under the lock) but the multierror library's ErrorOrNil is not modelled. iteratorRangeExpr (JSON "
-         "range) is not under contract. strconv.Atoi/Itoa and viper getters are assumed.",
+         "(a failing child files its error under the lock) but the multierror library's ErrorOrNil is not modelled. For iteratorRangeExpr (JSON "
+         "range) only 'a template error fails the load' is under contract, the decoding is not. strconv.Atoi/Itoa and viper getters are assumed.",
          "DESIGN.md §6 C15"),
 }
 
